@@ -16,7 +16,7 @@
  "name": "orphan_block_csum",
  "props": ["C06"],
  "level": "U",
- "tier": "wip",
+ "tier": "quick",
  "harness": "h_orphan_csum",
  "unwind": 6,
  "unwind_reason": "loop-free real code; the bound serves library loops",
@@ -32,7 +32,7 @@
  "name": "orphan_default_blocks",
  "props": ["C06"],
  "level": "U",
- "tier": "wip",
+ "tier": "quick",
  "harness": "h_orphan_default",
  "sources": ["lib/ext2fs/blknum.c"],
  "unwind": 6,
